@@ -248,6 +248,11 @@ func (m *Model) Draw(win vaxis.Window) {
 
 	chars := m.content
 	cursor := col
+	// When the whole line fits, with scrolloff to spare, nothing has to stay
+	// scrolled out of view (the window grew, or text was deleted)
+	if widthToCursor(chars, len(chars), 0)+col+scrolloff < winW {
+		m.offset = 0
+	}
 	// Make sure we've scrolled enough to have the cursor in the view. We
 	// never scroll past the cursor: in a window narrower than the prompt
 	// plus scrolloff the width test alone is true for every offset
